@@ -32,7 +32,8 @@ def parseLine (l : Line) : Option Obs := do
          val := ← (kv? l.obs "val").bind optNat, fresh := ← (kv? l.obs "fresh").bind optBool,
          err := ← (kv? l.obs "err").bind optNat,
          fs := ← (kv? l.obs "fs").bind optNat, fe := ← (kv? l.obs "fe").bind optNat,
-         runs := ← nat l.obs "runs", stuck := ← flag l.obs "stuck" }
+         runs := ← nat l.obs "runs", stuck := ← flag l.obs "stuck",
+         panicked := (kv? l.obs "panic") = some "1" }
 
 /-- well-formedness of one observed call (a broken harness or a broken stamp order is a mismatch). -/
 def wellFormed (o : Obs) : Option String :=
